@@ -78,6 +78,7 @@ func comp(n string) path.Component { return path.MustNewComponent(n) }
 
 func newBdSim(rt *rapid.T, rec *simkit.Recorder) *bdSim {
 	b := &bdSim{shared: newShared(rt, rec), fp: &fakePool{}, el: &fakeErrorLogger{}, names: map[string]*sim{}}
+	b.fp.clock = b.clock
 	b.wrap = rapid.SampledFrom([]string{"fuse", "nfs"}).Draw(rt, "wrap")
 	var ha virtual.StatefulHandleAllocator
 	if b.wrap == "fuse" {
@@ -96,6 +97,7 @@ func newBdSim(rt *rapid.T, rec *simkit.Recorder) *bdSim {
 		virtual.CaseSensitiveComponentNormalizer, setter, virtual.NoNamedAttributesFactory)
 	b.bd = builder.NewVirtualBuildDirectory(b.root, nil, routerCAS{&fakeCAS{}}, symlinks, nil, ha, setter, clock.SystemClock)
 	b.bd.InstallHooks(b.fp, b.el)
+	b.metricsBase = readMetrics(false)
 	b.add(step{Op: "newdir", S: b.wrap})
 	return b
 }
